@@ -1296,6 +1296,8 @@ func (m *e1Machine) badUnits(i int) []pt.Action {
 	for k := 2; k < len(u); k++ {
 		as = append(as, pt.Action{Op: "badunit", R: i, N: k, K: "garbled"})
 	}
+	// ... and one whose header (the operation that announces the unit) cannot be decoded
+	as = append(as, pt.Action{Op: "badunit", R: i, N: 0, K: "garbled"})
 	return as
 }
 
